@@ -3,7 +3,8 @@
 cd /verif
 ids=$(python3 -c "import json;print(' '.join(c['property_id'] for c in json.load(open('MANIFEST.json'))['checks']))")
 rc=0
-for p in $ids; do ( ./check $p --tier ${1:-quick} > /tmp/chk_$p.out 2>&1; echo "$p exit=$?" ) & done > /tmp/run_all.out; wait
+# at most 5 checks at a time: 14 at once (each Verus run uses 8 threads) pushed single units past the wall-clock limit of 900 s (exit 2, no verdict)
+echo $ids | tr ' ' '\n' | xargs -P ${VERIF_PAR:-5} -I{} sh -c './check {} --tier '${1:-quick}' > /tmp/chk_{}.out 2>&1; echo "{} exit=$?"' > /tmp/run_all.out
 cat /tmp/run_all.out | sort | tr '\n' ' '; echo
 grep -qv "exit=0" /tmp/run_all.out && rc=1
 python3-vt -c "
